@@ -41,3 +41,7 @@ def run(ctx):
                                    ("result.raw_delay_offset", "self.port_state.delay_state", ["DelayState::Empty"])])
     mc.check_formulas(ctx, "MEAS-4", E2E_FNS, REL, spec)
     mc.check_no_float(ctx, "MEAS-5", E2E_FNS, REL)
+    rep.rule("MEAS-6", "the Time/Duration operators the formulas are built from have their arithmetic meaning on "
+                       "every path (shared with C16 OPS-1)", floor=16)
+    from rules import timeops
+    timeops.check_ops(rep, ctx.prog("default"), "MEAS-6")
